@@ -703,11 +703,107 @@ def rule_no_carried_static_state(prog, fixture=False):
     return r
 
 
+# ---------------------------------------------------------------- R-C10-9
+def rule_short_read_keeps_data(prog, fixture=False):
+    from . import c07, c09
+    r = RuleResult("R-C10-9", "FileAccess::read of the decompressed file, like the plain one, hands back the bytes it did "
+                   "get when the request runs past the end of the data: on the short edge of `got < want` every "
+                   "return delivers the buffer, except where the buffer is known to be empty", floor=0 if fixture else 1)
+    keys = c07._read_calls(prog) if not fixture else set()
+    for fn, call, var, want, buf in c09._fread_sites(prog):
+        if not ((fn.key in keys or (fixture and fn.name == "read")) and len(fn.params) == 2) or want is None:
+            continue
+        br = c09._short_read_branch(fn, call, var, want)
+        key = "%s::%s::short-read" % (fn.relfile(), fn.qn)
+        if br is None:
+            r.undecided.append("%s: no branch on `result < requested` found after this fread" % fn.loc(call))
+            continue
+        bid, short, full = br
+        rets = [strip_all(n["c"][0]) for n in fn.walk() if n.get("k") == "ReturnStmt" and n.get("c")]
+        bufvars = set()
+        for e in rets:
+            x = e
+            while x is not None and x.get("k") == "CXXConstructExpr" and len(x.get("c", [])) == 1:
+                x = strip_all(x["c"][0])
+            if x is not None and x.get("k") == "DeclRefExpr" and x.get("dk") == "Var" and "vector" in (x.get("t") or x.get("ct") or ""):
+                bufvars.add(x["d"])
+        g = Guards(fn)
+        cfg = fn.cfg
+        seen, st = set(), [short]
+        problem = None
+        while st and problem is None:
+            x = st.pop()
+            if x in seen or x < 0:
+                continue
+            seen.add(x)
+            stop = False
+            for n in flow.element_nodes(fn, x):
+                if n.get("k") == "CallExpr" and notpl(n.get("q") or "") == "fread":
+                    stop = True          # the next round of the loop: a new request
+                    break
+                if n.get("k") == "ReturnStmt" and n.get("c"):
+                    e = strip_all(n["c"][0])
+                    y = e
+                    while y is not None and y.get("k") == "CXXConstructExpr" and len(y.get("c", [])) == 1:
+                        y = strip_all(y["c"][0])
+                    if y is not None and y.get("k") == "DeclRefExpr" and y.get("d") in bufvars:
+                        stop = True
+                        break
+                    empty_known = any(truth and (strip_all(a) or {}).get("k") == "CXXMemberCallExpr" and
+                                      (strip((strip_all(a))["c"][0]) or {}).get("n") == "empty"
+                                      for a, truth in (g.truths(n) or []))
+                    if not empty_known:
+                        problem = "%s: after a short read the function returns `%s` instead of the bytes it did read: a " \
+                                  "request that runs past the end of the decompressed data yields nothing, while the same " \
+                                  "request on the plain file yields the available bytes" % (fn.loc(n), show(e)[:40])
+                    stop = True
+                    break
+                if n.get("k") == "CXXThrowExpr":
+                    problem = "%s: a short read raises an exception" % fn.loc(n)
+                    break
+            if not stop:
+                st.extend(cfg.succ[x])
+        r.add(key, fn.loc(call), problem is None, "short reads deliver what was read" if problem is None else problem)
+    return r
+
+
+# ---------------------------------------------------------------- R-C10-10
+def rule_seek_back_offset(prog, fixture=False):
+    r = RuleResult("R-C10-10", "an fseek offset that hands input back (SEEK_CUR) is negated after it was widened to a "
+                   "signed type: negating the unsigned 32-bit count first and widening afterwards gives +4 GiB-n",
+                   floor=0 if fixture else 1)
+    for fn in prog.functions.values():
+        for n in fn.walk():
+            if n.get("k") != "CallExpr" or notpl(n.get("q") or "") not in ("fseek", "fseeko", "lseek"):
+                continue
+            a = call_args(n)
+            if len(a) < 3 or folded(a[2]) != 1:       # SEEK_CUR
+                continue
+            key = "%s::%s::%s(SEEK_CUR)" % (fn.relfile(), fn.qn, notpl(n.get("q")))
+            bad = None
+            negs = 0
+            for x in walk(a[1]):
+                if x.get("k") == "UnaryOperator" and x.get("op") == "-":
+                    negs += 1
+                    opnd = strip(x["c"][0])
+                    # the operand's own type (after the usual promotions) decides where the wrap happens
+                    if x.get("w") and x.get("w") < 64 and x.get("sg") is False:
+                        bad = x
+                    elif opnd is not None and opnd.get("sg") is False and (x.get("w") or 64) < 64:
+                        bad = x
+            r.add(key, fn.loc(n), bad is None, "offset negated in a signed 64-bit type" if bad is None and negs else
+                  ("no negation" if bad is None else
+                   "`%s` negates an unsigned %d-bit value before it is widened: the offset becomes 2^%d - n, a forward "
+                   "seek far past the end, and the gzip members after the first are lost" % (show(bad)[:40], bad.get("w"), bad.get("w"))),
+                  nontrivial=bool(negs))
+    return r
+
+
 def run(ctx):
     prog = ctx.prog("dfs", "N")
     return [rule_hint_name(prog), rule_gzip_only(prog), rule_zlib_census(prog), rule_all_members(prog),
             rule_openers(prog), rule_read_length(prog), rule_counters_after_reset(prog),
-            rule_no_carried_static_state(prog)]
+            rule_no_carried_static_state(prog), rule_short_read_keeps_data(prog), rule_seek_back_offset(prog)]
 
 
 SELFTESTS = [
@@ -717,4 +813,6 @@ SELFTESTS = [
     (rule_all_members, ["c10_bad.cc"], ["c10_good.cc"], "members"),
     (rule_read_length, ["c10_read_bad.cc"], ["c10_read_good.cc"], "resize#1"),
     (rule_counters_after_reset, ["c10_seek_bad.cc"], ["c10_seek_good.cc"], "total_in-as-position"),
+    (rule_short_read_keeps_data, ["c10_short_bad.cc"], ["c10_read_good.cc"], "short-read"),
+    (rule_seek_back_offset, ["c10_back_bad.cc"], ["c10_back_good.cc"], "SEEK_CUR"),
 ]
